@@ -18,39 +18,6 @@ import (
 // Every generated program of the common subset is translated by soyjs.Write
 // and the translation is validated by executing it in node with the same data.
 
-// toJSON converts a reference value to what encoding/json should send to node.
-func toJSON(v ref.Value) interface{} {
-	switch v.K {
-	case ref.Null, ref.Undefined:
-		return nil
-	case ref.Bool:
-		return v.B
-	case ref.Int:
-		return v.I
-	case ref.Float:
-		return v.F
-	case ref.String:
-		return v.S
-	case ref.List:
-		out := make([]interface{}, len(v.L))
-		for i, it := range v.L {
-			out[i] = toJSON(it)
-		}
-		return out
-	case ref.Map:
-		return toJSONMap(v.M)
-	}
-	return nil
-}
-
-func toJSONMap(m map[string]ref.Value) map[string]interface{} {
-	out := map[string]interface{}{}
-	for k, v := range m {
-		out[k] = toJSON(v)
-	}
-	return out
-}
-
 // jsSources generates the JavaScript of every file of a compiled bundle.
 func jsSources(cb *compiled, opts soyjs.Options, module bool) ([]jsFile, error) {
 	var files []jsFile
